@@ -56,7 +56,7 @@ SETTINGS = {
     "i18n": "[i18n]\n\tlogOutputEncoding = ISO-8859-1\n\tcommitEncoding = UTF-8\n",
     "rewriteref": "[notes]\n\trewriteRef = refs/notes/*\n[notes \"rewrite\"]\n\trebase = true\n\tamend = true\n",
 }
-CONTEXTS = ["root", "subdir", "dash-C", "worktree", "subdir-c", "dash-C-c", "dash-C-C", "gitdir-worktree"]
+CONTEXTS = ["root", "subdir", "dash-C", "worktree", "subdir-c", "dash-C-c", "dash-C-C", "gitdir-worktree", "env-relocated"]
 
 
 def script(sc, context):
@@ -74,6 +74,15 @@ def script(sc, context):
         sc.w.main_repo = sc.w.repo
         sc.w.repo = wt
         sc.nr.repo = wt
+    elif context == "env-relocated":
+        # the repository is located through the environment, and the work tree is NOT the directory that holds `.git`
+        # (GIT_DIR=<store>/.git GIT_WORK_TREE=<tree>, both absolute: dot-file managers, deployment checkouts, IDE integrations)
+        store = os.path.join(sc.w.root, "store")
+        os.makedirs(store)
+        os.rename(os.path.join(sc.w.repo, ".git"), os.path.join(store, ".git"))
+        for e in (sc.w.env_base, sc.w.oracle_env):
+            e["GIT_DIR"] = os.path.join(store, ".git")
+            e["GIT_WORK_TREE"] = sc.w.repo
     elif context in ("subdir", "dash-C", "subdir-c", "dash-C-c", "dash-C-C", "gitdir-worktree"):
         sc.w.invoke = context
         if context in ("subdir", "subdir-c"):
